@@ -327,6 +327,23 @@ Section Instances.
        flush := fun s => s;
        on_err := fun _ _ _ => RAbort |}.
 
+  (* the same with an arbitrary calculated time per message: buffer_sort_messages orders by
+     lifecycle start + timestamp, where the start is whatever the lifecycle table showed when the sort first
+     looked the lifecycle up (shared memory, timing dependent).  [key] stands for the outcome of these reads:
+     every timing of the reads is some [key]. *)
+  Fixpoint insk (key : N -> N) (m : N) (l : list N) : list N :=
+    match l with [] => [m] | x :: r => if key m <? key x then m :: l else x :: insk key m r end.
+  Fixpoint split_oldk (key : N -> N) (lim : N) (l : list N) : list N * list N :=
+    match l with
+    | [] => ([], [])
+    | x :: r => if key x <? lim then let '(a, b) := split_oldk key lim r in (x :: a, b) else ([], l)
+    end.
+  Definition st_sort_key (key : N -> N) (w : N) : @stage imsg ist :=
+    {| init := [];
+       step_fn := fun s m => let '(old, keep) := split_oldk key (m - w) (insk key m s) in (keep, old);
+       flush := fun s => s;
+       on_err := fun _ _ _ => RAbort |}.
+
   (* parse_lifecycles_buffered_from_stream in miniature: messages are buffered until a message divisible
      by k "confirms" them: then the buffered ones are sent in the inner loop and the message itself
      directly.  Err in the inner loop: the failed message is lost, the rest goes back to the buffer, the
